@@ -17,7 +17,7 @@ PROPS = {
                      "goroutine interleavings inside a node are sampled, not enumerated", "convergence deadline 13 s (+ idle limit + 12 s after a silent failure)"],
         parts=[
             part("mesh", "netprops", "TestC01", "C01",
-                 quick=dict(checks=48, shards=8, budget_s=420),
+                 quick=dict(checks=96, shards=8, budget_s=420),
                  thorough=dict(checks=800, shards=16, budget_s=3000, shrink="3m")),
         ],
     ),
@@ -54,7 +54,7 @@ PROPS = {
                  quick=dict(checks=20000, shards=4, budget_s=240),
                  thorough=dict(checks=1000000, shards=16, budget_s=1800, shrink="2m")),
             part("mesh", "netprops", "TestC12Mesh", "C12.mesh",
-                 quick=dict(checks=48, shards=8, budget_s=300),
+                 quick=dict(checks=96, shards=8, budget_s=300),
                  thorough=dict(checks=1600, shards=16, budget_s=3000, shrink="2m")),
         ],
     ),
@@ -164,7 +164,7 @@ PROPS = {
                  quick=dict(checks=240, shards=8, budget_s=300),
                  thorough=dict(checks=6000, shards=12, budget_s=3000, shrink="2m")),
             part("mesh", "netprops", "TestC18Mesh", "C18.mesh",
-                 quick=dict(checks=24, shards=8, budget_s=400),
+                 quick=dict(checks=48, shards=8, budget_s=400),
                  thorough=dict(checks=400, shards=12, budget_s=3300, shrink="3m")),
         ],
     ),
@@ -178,7 +178,7 @@ PROPS = {
         assumptions=["the routing tables are read after convergence and do not change during a probe (no events are injected)"],
         parts=[
             part("hops", "netprops", "TestC10", "C10",
-                 quick=dict(checks=64, shards=8, budget_s=400),
+                 quick=dict(checks=128, shards=8, budget_s=400),
                  thorough=dict(checks=1600, shards=16, budget_s=3300, shrink="3m")),
         ],
     ),
@@ -193,7 +193,7 @@ PROPS = {
         assumptions=["positive expectations wait up to 25 s; absence is judged after a 0.4 s grace once all expected notices have arrived"],
         parts=[
             part("notices", "netprops", "TestC16", "C16",
-                 quick=dict(checks=64, shards=8, budget_s=420),
+                 quick=dict(checks=128, shards=8, budget_s=420),
                  thorough=dict(checks=1600, shards=16, budget_s=3300, shrink="3m")),
         ],
     ),
@@ -208,7 +208,7 @@ PROPS = {
         assumptions=["node IDs are valid UTF-8 and not 'localhost' in any letter case", "links are reliable, so exactly-once is required (deadline 30 s)"],
         parts=[
             part("datagrams", "netprops", "TestC02", "C02",
-                 quick=dict(checks=120, shards=8, budget_s=420),
+                 quick=dict(checks=240, shards=8, budget_s=420),
                  thorough=dict(checks=4000, shards=16, budget_s=3300, shrink="3m")),
         ],
     ),
@@ -239,7 +239,7 @@ PROPS = {
         assumptions=["settling deadline 40 s with the QUIC idle timeout lowered to 2 s (an exported variable)", "one executor process per scenario"],
         parts=[
             part("lifecycle", "netprops", "TestC17", "C17",
-                 quick=dict(checks=24, shards=8, budget_s=600),
+                 quick=dict(checks=64, shards=8, budget_s=600),
                  thorough=dict(checks=400, shards=16, budget_s=3400, shrink="4m")),
         ],
     ),
@@ -319,7 +319,7 @@ PROPS = {
         assumptions=["a command that ignores SIGINT is killed after the 10 s grace period, so 'gone' is judged 25 s after the reply"],
         parts=[
             part("lifecycle", "workprops", "TestC13", "C13",
-                 quick=dict(checks=32, shards=8, budget_s=600),
+                 quick=dict(checks=64, shards=8, budget_s=600),
                  thorough=dict(checks=640, shards=16, budget_s=3400, shrink="3m")),
         ],
     ),
